@@ -526,6 +526,27 @@ static void c09_run_all(void) {
     c09_stream(s.p, s.n, &r);
     VH_COUNT("streams", 1);
   }
+  /* long streams: tens of thousands of small items (the running offset crosses 2^16 several times), delivered in one
+   * piece, in 4 KiB fragments, and in fragments that end one byte before / after each multiple of 2^16 */
+  {
+    static const char* const pool[] = {"00", "1818", "190100", "20", "4161", "62c3a9", "80", "a10102", "9f", "ff", "5f", "7f", "c1", "f5", "f6", "f93c00", "fa3fc00000", "1a00010000", "d81840", "58020102"};
+    for (int q = 0; q < 6; q++) {
+      if (q % O.nshards != O.shard) continue;
+      struct vh_rng r;
+      vh_rng_seed(&r, O.seed * 0x10c9 + (uint64_t)q);
+      vb_reset(&s);
+      size_t items = q < 3 ? 20000 : 60000;
+      for (size_t i = 0; i < items; i++) { const char* h = pool[vh_below(&r, sizeof pool / sizeof pool[0])]; for (; *h; h += 2) { unsigned v; sscanf(h, "%2x", &v); vb_u8(&s, (uint8_t)v); } }
+      uint32_t* cuts = malloc((s.n / 2048 + 8) * sizeof *cuts);
+      size_t nc = 0;
+      if (q % 3 == 1) for (size_t c = 4096; c < s.n; c += 4096) cuts[nc++] = (uint32_t)c;
+      if (q % 3 == 2) for (size_t c = 65536; c < s.n; c += 65536) { cuts[nc++] = (uint32_t)(c - 1); cuts[nc++] = (uint32_t)(c + 1); }
+      c09_case(s.p, s.n, cuts, nc);
+      free(cuts);
+      VH_COUNT("long_streams", 1);
+      VH_MAX("max_stream_bytes", s.n);
+    }
+  }
   /* streams holding one big string between two small items, cut where a size-dependent hint would go wrong: inside the
    * length argument, at the end of the head, and with a quarter / half / most / all but one byte of the payload buffered */
   {
